@@ -308,6 +308,13 @@ def run(rep: Report, tier: str) -> None:
                 ok = all(tkey(kw.get(k, ("unk", ""))) == tkey(v) for k, v in wkw.items()) and not any(_bound_kind(v) == "from" for v in kw.values())
                 rep.check(ok, rd, init.module, init.qualname, f"{key.split('.')[-1].lstrip(':')} receives to_date and unfiltered input only", f"{short(n, 100)} receives {dict((k, show(v)[:60]) for k, v in kw.items())}; expected only the to-date and unfiltered input (all history up to the to-date)", loc(n))
     check_numbering_from_history_start(rep, rd)
+    # the yearly sums are built from the unfiltered fractions (the from-date only selects which years are shown): a from-date-filtered set handed to the
+    # summing helper drops the fractions of the first shown year that lie before the from-date (definite: the argument itself is the defect)
+    for n in ast.walk(init.node):
+        if isinstance(n, ast.Call) and isinstance(n.func, ast.Attribute) and n.func.attr == "_create_yearly_gain_loss_list" and n.args:
+            a0 = norm.term(n.args[0], norm.ctx_for(init, subst_locals=True))
+            filtered = [s_ for s_ in subterms(a0) if s_[0] == "fld" and "filtered" in s_[2] and "unfiltered" not in s_[2]] + [s_ for s_ in subterms(a0) if s_[0] in ("call", "xcall") and str(s_[1]).endswith("duplicate")]
+            rep.check(not filtered, rd, init.module, init.qualname, "yearly sums are computed over the unfiltered fractions", f"{short(n, 100)} sums {show(a0)[:120]}: a set that was cut at the from-date loses the fractions of the first shown year that lie before it - the yearly line of that year is short or missing while the detail rows stay right", loc(n), definite=True)
     ppu = prog.func("rp2.computed_data", "ComputedData._compute_price_per_unit")
     rep.check("from_date" not in ppu.param_names, rd, ppu.module, ppu.qualname, "average price takes no from-date", "average price now takes a from-date", loc(ppu.node))
 
